@@ -16,6 +16,7 @@ import Driver.C09
 import Driver.C07
 import Driver.C14
 import Driver.C17
+import Driver.C18
 open Driver
 
 def machines : List (String × Machine × Machine) :=
@@ -37,7 +38,8 @@ def machines : List (String × Machine × Machine) :=
    ("C09", C09.machine, C09.judge),
    ("C07", C07.machine, C07.judge),
    ("C14", C14.machine, C14.judge),
-   ("C17", C17.machine, C17.judge)]
+   ("C17", C17.machine, C17.judge),
+   ("C18", C18.machine, C18.judge)]
 
 def main (args : List String) : IO UInt32 := do
   match args with
